@@ -17,7 +17,13 @@ SPEC = {
              "min_waiting_time 0-5 ms) each starting with a request of its own, 0-3 shared requests; request lists with name, name(n), "
              "name(n,ms), sleep(ms) (n <= 3, pauses <= 3 ms, <= 8 executed steps), in three scenarios of ten a request is listed a "
              "second time with another pause argument or none (a pause belongs to the occurrence it is written at); about one "
-             "request in five has no postprocessors at all; URI / header / body templates over source "
+             "request in five has no postprocessors at all; in 55 % of the programs (added after seeded defect C15/m10) scenarios and requests are "
+             "renamed to snake_case names of 1-3 words from a nine-word vocabulary (like auth_req / scenario_name of the documentation) everywhere a "
+             "name is written (request lists, the leading /<name> of the URI, preprocessor paths, template references), and in three "
+             "quarters of those with >= 2 scenarios a word sequence is cut at two places so that two different (scenario, request) uses "
+             "read the same when joined by an underscore (scenario `order` + request `new_item`, scenario `order_new` + request `item`); "
+             "half of these pairs get a header of the same name with differing values and a third both a body; 30 % of the requests name "
+             "`templater: text` explicitly, the others leave the templater out; URI / header / body templates over source "
              "rows, variables, own and earlier steps' preprocessor variables and values captured by var/jsonpath, var/header (with "
              "lower/upper/substr/replace) and var/xpath of earlier steps, incl. references to steps that did not run; preprocessors with "
              "[next], [last], [i], variables and earlier steps' values; assert/response (status, body, header, and - added after seeded "
@@ -62,6 +68,12 @@ SPEC = {
                "TestScenarioExecution/next_used": 0.3, "TestScenarioExecution/next_wrapped": 0.15,
                "TestScenarioExecution/non2xx_without_assert_continues": 0.036,
                "TestScenarioExecution/header_named_url_or_body": 0.03,
+               # classes added after seeded defect C15/m10 (two (scenario, request) uses whose names join to the same string)
+               "TestScenarioExecution/request_names_with_underscore": 0.3,
+               "TestScenarioExecution/names_join_equally_both_rendered_default_templater": 0.05,
+               "TestScenarioExecution/names_join_equally_default_templater_same_header_name": 0.025,
+               "TestScenarioExecution/names_join_equally_default_templater_both_body": 0.015,
+               "TestNextAcrossInstances/names_join_equally_both_rendered_default_templater": 0.04,
                "TestNextAcrossInstances/next_wrapped": 0.25, "TestNextAcrossInstances/invocations_interleaved_at_target": 0.2,
                "TestNextAcrossInstances/instances_4": 0.1},
     "manifest": {
@@ -69,7 +81,7 @@ SPEC = {
                       "against a scripted recording target, judged by a reference interpreter written from the documentation"),
         "text": ("Per invocation the target's request log must be the expanded step list (multiplicities, order) cut after the first "
                  "failing step, every URI / header / body must equal the interpreter's rendering from source rows and from values set "
-                 "earlier in the same invocation, every executed step must leave exactly one sample (status of the response, or marked "
+                 "earlier in the same invocation - by the templates of the step's own request, whatever the scenario and request names are -, every executed step must leave exactly one sample (status of the response, or marked "
                  "failed for the failing step: failed assertion - a `size` assertion is judged on the number of body bytes the target sent, whether they "
                  "came with Content-Length or chunked -, closed connection, response body cut short by a dropped connection - with "
                  "or without postprocessors on the step -, template or preprocessor that cannot be evaluated), "
